@@ -418,3 +418,23 @@ Proof.
     + destruct (running s) eqn:Hrun; [apply Hcan; auto|]. unfold all_done in Ed. rewrite Hrun in Ed. discriminate Ed.
 Qed.
 End Live.
+
+(* ---- the environment assumption made explicit: Read returns ---- *)
+From Verif Require Import Pipeline.Witness.
+
+(* a reachable state in which Close is waiting and the ONLY step any goroutine can take is the
+   reader's readFileBlock: if that Read never returns (a pipe nobody writes to), Close never
+   returns.  The theorems no_deadlock / goroutines_terminate count this step as always enabled. *)
+Lemma close_waits_for_read :
+  c_pc close_in_read_state = CClose /\ r_pc close_in_read_state = RRead /\ cancelled close_in_read_state = true /\
+  step (cfg_now 1 blocks5) LCo close_in_read_state = None /\
+  forall l s' o, is_progress l = true -> step (cfg_now 1 blocks5) l close_in_read_state = Some (s', o) -> l = LRd false.
+Proof.
+  repeat split.
+  intros l s' o Hp H. destruct l as [d|i d|d| |a]; try discriminate Hp.
+  - destruct d; [vm_compute in H; discriminate H|reflexivity].
+  - destruct i as [|i]; [destruct d; vm_compute in H; discriminate H|].
+    cbn in H. unfold step_worker in H. cbn in H. discriminate H.
+  - destruct d; vm_compute in H; discriminate H.
+  - vm_compute in H. discriminate H.
+Qed.
